@@ -79,10 +79,11 @@ pub fn start(config: Config) -> Result<Tracker, String> {
         if ok {
             std::thread::sleep(Duration::from_millis(150));
             LIVE_SWARM_WORKERS.fetch_add(t.config.swarm_workers, std::sync::atomic::Ordering::SeqCst);
+            *CANARY_TARGET.lock().unwrap_or_else(|e| e.into_inner()) = Some((if t.config.network.use_ipv4 { t.v4 } else { t.v6 }, if t.config.network.runs_behind_reverse_proxy { Some(t.config.network.reverse_proxy_ip_header_name.clone()) } else { None }));
             return Ok(t);
         }
-        if t0.elapsed() > Duration::from_secs(20) {
-            return Err("tracker did not answer within 20 s".into());
+        if t0.elapsed() > Duration::from_secs(90) {
+            return Err("tracker did not answer within 90 s".into());
         }
         std::thread::sleep(Duration::from_millis(20));
     }
@@ -173,8 +174,28 @@ impl Conn {
         }
     }
 
-    /// Framing monitor: exactly one well-framed response from the head of the stream
+    /// Framing monitor: exactly one well-framed response from the head of the stream.
+    /// A reply that does not arrive in time is judged against the tracker's own responsiveness: canary scrapes on fresh
+    /// connections (covering every swarm worker) are answered => this request is stuck for good (one grace period
+    /// later: `Timeout`); the canaries are not answered either => the machine is overloaded or the whole tracker is
+    /// gone, which this request cannot decide (`Timeout` too, but counted in `UNDECIDED`; the engine turns the
+    /// timeouts of such a run into "inconclusive").
     pub fn read_reply(&mut self, timeout_ms: u64) -> Result<HttpReply, FrameError> {
+        let r = self.read_reply_inner(timeout_ms);
+        if matches!(r, Err(FrameError::Timeout)) && timeout_ms >= 2000 && !IN_CANARY.with(|c| c.get()) {
+            if tracker_responsive() {
+                let again = self.read_reply_inner(3000);
+                if !matches!(again, Err(FrameError::Timeout)) {
+                    LATE_REPLIES.fetch_add(1, std::sync::atomic::Ordering::SeqCst);
+                }
+                return again;
+            }
+            UNDECIDED.fetch_add(1, std::sync::atomic::Ordering::SeqCst);
+        }
+        r
+    }
+
+    fn read_reply_inner(&mut self, timeout_ms: u64) -> Result<HttpReply, FrameError> {
         let deadline = Instant::now() + Duration::from_millis(timeout_ms);
         // header
         let head_end = loop {
@@ -349,4 +370,44 @@ pub static LIVE_SWARM_WORKERS: std::sync::atomic::AtomicUsize = std::sync::atomi
 
 pub fn distinct_first_n(hashes: &[[u8; 20]], n: usize) -> BTreeSet<[u8; 20]> {
     hashes.iter().take(n).copied().collect()
+}
+
+// ---- canaries: is the tracker answering at all? ----
+
+pub static UNDECIDED: std::sync::atomic::AtomicU64 = std::sync::atomic::AtomicU64::new(0);
+pub static LATE_REPLIES: std::sync::atomic::AtomicU64 = std::sync::atomic::AtomicU64::new(0);
+static CANARY_TARGET: Mutex<Option<(SocketAddr, Option<String>)>> = Mutex::new(None);
+
+thread_local! {
+    static IN_CANARY: std::cell::Cell<bool> = const { std::cell::Cell::new(false) };
+}
+
+/// Eight scrapes on fresh connections (different source ports => spread over the socket workers; eight hashes with
+/// first bytes 0..8 => every swarm worker takes part), each with 6 s: all answered = the tracker is responsive.
+pub fn tracker_responsive() -> bool {
+    let target = CANARY_TARGET.lock().unwrap_or_else(|e| e.into_inner()).clone();
+    let (addr, header) = match target {
+        Some(t) => t,
+        None => return true,
+    };
+    IN_CANARY.with(|c| c.set(true));
+    let mut ok = true;
+    for k in 0..8u8 {
+        let hashes: Vec<[u8; 20]> = (0..8u8).map(|b| { let mut h = [0xCAu8; 20]; h[0] = b; h[1] = k; h }).collect();
+        let req = scrape_req(&hashes, &header.clone().map(|h| format!("{}: 127.0.0.1\r\n", h)).unwrap_or_default());
+        match Conn::open(addr, None) {
+            Ok(mut c) => {
+                if c.request(&req, 6000).is_err() {
+                    ok = false;
+                    break;
+                }
+            }
+            Err(_) => {
+                ok = false;
+                break;
+            }
+        }
+    }
+    IN_CANARY.with(|c| c.set(false));
+    ok
 }
